@@ -504,7 +504,7 @@ SELFTEST = [
 
 LEVEL_TEXT += ' Also (R4): the hyper connection builder is configured once before the transport switch and HTTP/1 half-close is never enabled, so HTTP and HTTPS detect a disconnect identically.'
 LEVEL_TEXT += " Also (R5): the disconnect record (log line, 499 probe) is written only for a future dropped mid-handler: the scope guard is defused on every path from the completed handler await to the response."
-LEVEL_TEXT += " Also (R6): the task mode read by the dispatch is the configured one: it is copied from the constructor's config, which every internal caller passes through unmodified."
+LEVEL_TEXT += " Also (R6): the task mode read by the dispatch is the configured one: it is copied from the constructor's config, which every internal caller passes through unmodified. The serialising conversion of the configuration (serde `into`) carries the mode as well."
 
 
 SELFTEST += [
